@@ -396,7 +396,8 @@ class J1939_21:
         elif control_byte == self.ConnectionMode.ABORT:
             # if abort received before transmission established -> cancel transmission
             buffer_hash = self._buffer_hash(dest_address, src_address)
-            if buffer_hash in self._snd_buffer and self._snd_buffer[buffer_hash]['state'] == self.SendBufferState.WAITING_CTS:
+            # (the abort names its connection by PGN: the peer may be giving up a transfer of its own)
+            if buffer_hash in self._snd_buffer and self._snd_buffer[buffer_hash]['pgn'] == pgn and self._snd_buffer[buffer_hash]['state'] == self.SendBufferState.WAITING_CTS:
                 self._snd_buffer[buffer_hash]['state'] = self.SendBufferState.TRANSMISSION_FINISHED
                 self._snd_buffer[buffer_hash]['deadline'] = time.time()
             # TODO: any more abort responses?
